@@ -141,3 +141,149 @@ pub fn boundaries(toks: &[Tok]) -> Vec<usize> {
     b.dedup();
     b
 }
+
+// ---------------------------------------------------------------------------------------------
+// Reference normaliser (C07): written from the statement, not from the implementation.
+
+use std::collections::HashSet;
+use unicode_normalization::UnicodeNormalization;
+
+#[derive(Clone, Debug, Default)]
+pub struct RewriteTable {
+    pub exempt: HashSet<char>,
+    pub map: Vec<(String, String)>,
+}
+
+impl RewriteTable {
+    /// rewrite.def: one character per line = exempt from NFKC; two columns = replacement
+    pub fn parse(text: &str) -> RewriteTable {
+        let mut t = RewriteTable::default();
+        for line in text.lines() {
+            let line = line.trim();
+            if line.is_empty() || line.starts_with('#') {
+                continue;
+            }
+            let cols: Vec<&str> = line.split_whitespace().collect();
+            if cols.len() == 1 {
+                t.exempt.insert(cols[0].chars().next().unwrap());
+            } else if cols.len() == 2 {
+                t.map.push((cols[0].to_string(), cols[1].to_string()));
+            }
+        }
+        t
+    }
+
+    /// longest key that is a prefix of `s`
+    pub fn longest_key(&self, s: &str) -> Option<&(String, String)> {
+        let mut best: Option<&(String, String)> = None;
+        for kv in &self.map {
+            if s.starts_with(kv.0.as_str()) && best.map(|b| b.0.len() < kv.0.len()).unwrap_or(true) {
+                best = Some(kv);
+            }
+        }
+        best
+    }
+
+    /// the function applied to a character that is not covered by a key
+    pub fn norm_char(&self, c: char) -> String {
+        let lowered: String = if c.is_uppercase() { c.to_lowercase().collect() } else { c.to_string() };
+        if self.exempt.contains(&c) {
+            lowered
+        } else {
+            lowered.nfkc().collect()
+        }
+    }
+
+    /// spans of the input with their rewritten text, left to right
+    pub fn spans(&self, s: &str) -> Vec<(std::ops::Range<usize>, String)> {
+        let mut out = Vec::new();
+        let mut i = 0;
+        while i < s.len() {
+            if let Some((k, v)) = self.longest_key(&s[i..]) {
+                out.push((i..i + k.len(), v.clone()));
+                i += k.len();
+            } else {
+                let c = s[i..].chars().next().unwrap();
+                out.push((i..i + c.len_utf8(), self.norm_char(c)));
+                i += c.len_utf8();
+            }
+        }
+        out
+    }
+
+    pub fn normalize(&self, s: &str) -> String {
+        self.spans(s).into_iter().map(|(_, t)| t).collect()
+    }
+}
+
+/// prolonged sound marks: maximal runs of >= 2 marks collapse to the replacement symbol
+pub fn ref_prolonged(marks: &[char], repl: &str, s: &str) -> String {
+    let cs: Vec<char> = s.chars().collect();
+    let mut out = String::new();
+    let mut i = 0;
+    while i < cs.len() {
+        if marks.contains(&cs[i]) {
+            let mut j = i;
+            while j < cs.len() && marks.contains(&cs[j]) {
+                j += 1;
+            }
+            if j - i >= 2 {
+                out.push_str(repl);
+            } else {
+                out.push(cs[i]);
+            }
+            i = j;
+        } else {
+            out.push(cs[i]);
+            i += 1;
+        }
+    }
+    out
+}
+
+/// yomigana: kanji, opening bracket, 1..=max kana, closing bracket -> drop the bracketed part;
+/// leftmost, non-overlapping
+pub fn ref_yomigana(
+    is_kanji: &dyn Fn(char) -> bool,
+    is_kana: &dyn Fn(char) -> bool,
+    left: &[char],
+    right: &[char],
+    max: usize,
+    s: &str,
+) -> String {
+    let cs: Vec<char> = s.chars().collect();
+    let mut out = String::new();
+    let mut i = 0;
+    while i < cs.len() {
+        let mut matched = None;
+        if is_kanji(cs[i]) && i + 1 < cs.len() && left.contains(&cs[i + 1]) {
+            let mut j = i + 2;
+            let mut k = 0;
+            while j < cs.len() && is_kana(cs[j]) && k < max {
+                j += 1;
+                k += 1;
+            }
+            // regex backtracking: any 1..=k kana followed by a closing bracket
+            let mut kk = k;
+            while kk >= 1 {
+                let close = i + 2 + kk;
+                if close < cs.len() && right.contains(&cs[close]) {
+                    matched = Some(close);
+                    break;
+                }
+                kk -= 1;
+            }
+        }
+        match matched {
+            Some(close) => {
+                out.push(cs[i]);
+                i = close + 1;
+            }
+            None => {
+                out.push(cs[i]);
+                i += 1;
+            }
+        }
+    }
+    out
+}
